@@ -1,5 +1,5 @@
 """C14 - simple heuristics compute exactly what their textbook definitions prescribe."""
-from .. import core, scope, gen, drive
+from .. import core, scope, gen, drive, models
 from .common import *
 
 
@@ -49,6 +49,11 @@ def run(ck):
         g = dict(g); g["orc"] = 0
         g["calls"] = [pcall(a, "iddict", extra=False) for a in COVERS]
         groups.append(g)
+    # stepwise: the recorded sequence of placements (which item into which bin) of every heuristic against the rule
+    st = [{"alg": a, "vals": g["vals"], "k": g["C"]} for g in scope.q_scope(ck, 4 if q else 5, 3, [2, 3]) for a in ("greedy", "roundrobin")]
+    st += [{"alg": a, "vals": g["vals"], "C": g["C"]} for g in scope.q_scope(ck, 4 if q else 5, 5, [5, 6]) if max(g["vals"]) <= g["C"] for a in FIT4]
+    st += [{"alg": a, "vals": g["vals"], "C": g["C"]} for g in scope.q_scope(ck, 4 if q else 5, 7, [6, 7], minv=1) for a in COVERS]
+    models.placement_traces(ck, st)
     ck.rule = ("TLC enumerates every arrival sequence (ties between equal values in every order, items exactly filling a bin, items equal to binsize/2 and "
                "binsize/3 with C in {6,12}; odd sizes 5,7,9 where the thresholds fall between integers) of <=5 values; each heuristic's result is compared by TLC with the Textbook.tla transcription of its documented rule: "
                "bag of sums for all nine, bins as bags of values for round-robin, ff, ffd and the three covers. Items are presented under names (dict keyed by "
